@@ -156,6 +156,7 @@ class World:
         wb = self.wb
         fn = {'github': wb.notify_github_changed, 'batch': wb.notify_batch_changed, 'update': wb.update}[which]
         refs_before = self.gh.refs_read
+        self.gh.call_budget = 3000       # a terminating update of <= 4 PRs makes a few dozen GitHub calls
         try:
             self.env.loop.run_until_complete(fn(self.db, self.bc, self.gh, self.frozen))
             if self.gh.refs_read != refs_before:
@@ -170,6 +171,10 @@ class World:
                 # WatchedBranch._update cleared github_changed before the refresh that just died: what CI holds now is a
                 # partly refreshed view that nothing schedules for repair until the next GitHub notification
                 self.refresh_aborted = f'{type(e).__name__}@{where}'
+        except self.env.F.UpdateLivelock:
+            wb.updating = False
+            self.fails.append(('update-does-not-terminate', 'harness guard (not part of the statement): an update terminates',
+                               f'{which} notification made > 3000 GitHub calls; {len(self.attempts)} merge attempts so far'))
         except Exception as e:      # noqa: BLE001
             raise self.env.F.HarnessBug(f'_update raised an exception the harness does not expect: {type(e).__name__}: {e}') from e
 
@@ -562,6 +567,12 @@ def _minimise(case, sig, msg, budget=400):
         return False
 
     best = copy.deepcopy(case)
+    for key in ('deployable', 'filler', 'dismiss_stale'):
+        if best['cfg'].get(key):
+            cand = copy.deepcopy(best)
+            cand['cfg'][key] = 0
+            if still(cand):
+                best = cand
     changed = True
     while changed and budget > 0:
         changed = False
